@@ -328,6 +328,15 @@ class _SpyneJsonRpc1(JsonDocument):
 
             (ctx.method_request_string,ctx.in_body_doc), = body.items()
 
+    def create_out_string(self, ctx, out_string_encoding='utf8'):
+        # out_document is the envelope here, and not a sequence of documents
+        # like it is in JsonDocument.
+        out_string = json.dumps(ctx.out_document, **self.kwargs)
+        if out_string_encoding is not None:
+            out_string = out_string.encode(out_string_encoding)
+
+        ctx.out_string = [out_string]
+
     def deserialize(self, ctx, message):
         assert message in (self.REQUEST, self.RESPONSE)
 
